@@ -326,7 +326,7 @@ NextTxq(e, pre) ==
 Answers(e, pre) ==
   LET s == e.post  q == NextTxq(e, pre)
       mine == SentBase(e) \cup EchoBase(e) \cup UNION {OwnAt(e, j) : j \in Bcs(e)} IN
-    ( /\ e.call = "OnTransaction" /\ s.started /\ ~s.watch /\ s.me >= 0 /\ s.me # s.primary /\ ~s.blockDone
+    ( /\ e.call = "OnTransaction" /\ s.started /\ ~s.watch /\ s.me >= 0 /\ s.me # s.primary /\ pre.started /\ ~pre.blockDone      \* (also when the block is accepted inside this very call: the answer comes first)
       /\ q.key # NoKey /\ q.asked # {} /\ q.asked \subseteq q.given
       /\ ~\E c \in mine : c.t = "ChangeView" /\ c.h = s.h /\ c.v = s.v )
     => \E m \in mine : m.t = "PrepareResponse" /\ m.h = s.h /\ m.v = s.v
